@@ -614,14 +614,39 @@ class _OneTask:
         return iter(self._q)
 
 
+_POISON = [False]
+
+
 def _step(w, ref, dis, compare_pending):
     """Run the NRT clock scheduler for one task, as ClockScheduler.run does."""
     sched = w.main._clock_scheduler
     real = sched.queue
+    if real.empty():
+        # the same history had a pending task when it was explored: the
+        # library's behaviour depends on something outside the history
+        _POISON[0] = True
+        dis.append(('history-not-a-function-of-its-operations',
+                    'a pending task, as when this history was explored',
+                    'empty queue',
+                    'replaying the same operations on fresh objects in '
+                    'another process gave another scheduler state'))
+        return '<none>', None
     time, ct = real.peek()
     who = w.names.get(id(ct.task))
     if who is None:
-        raise core.HarnessError('unknown task in the scheduler queue')
+        # a task that does not belong to this history is queued: something
+        # the library keeps outside the objects of the history (e.g. waiters
+        # of another Condition) made it schedule a foreign routine.  Reported
+        # as an observation, never as a harness error; the foreign entry is
+        # dropped so that the history can go on.
+        real.pop()
+        _POISON[0] = True       # the process keeps leaking: stop exploring
+        dis.append(('foreign-task-scheduled', 'only routines of this history',
+                    repr(ct.task)[:120],
+                    'a routine that is not part of the history was handed '
+                    'to the clock: a waiting routine resumes only when ITS '
+                    'condition is signalled'))
+        return '<foreign>', None
     before = ref.r[who].state
     spurious = compare_pending and not ref.owed(who) and ref.advances(who)
     n0 = len(w.awake)
@@ -674,6 +699,8 @@ class LifeSys:
         self.tainted = False
 
     def ops(self):
+        if _POISON[0]:
+            return []
         if self.w is None:
             return [['body', b] for b in life_bodies(self.params['set'])]
         o = [['next']]
@@ -689,6 +716,8 @@ class LifeSys:
         return o
 
     def apply(self, op):
+        if _POISON[0]:
+            return []
         name = op[0]
         if name == 'body':
             self.body = op[1]
@@ -775,6 +804,8 @@ class LifeSys:
         return []
 
     def key(self):
+        if _POISON[0]:
+            return ['poisoned']
         if self.w is None:
             return ['root']
         # the non-trivial flag and "the last step disagreed" are part of the
@@ -917,6 +948,11 @@ class CondSys:
     def __init__(self, params):
         cfg = COND_CONFIGS[params['config']]
         self.cfg = cfg
+        self.resumed = 0
+        self.last = None
+        self.tainted = False
+        if _POISON[0]:      # a foreign task was met in this process: see _step
+            return
         self.w = RealWorld(cfg['routines'], cfg.get('conds', ()),
                            cfg.get('fvs', ()), cfg.get('flags', ()),
                            cfg.get('cond_init'))
@@ -928,12 +964,16 @@ class CondSys:
         self.tainted = False
 
     def ops(self):
+        if _POISON[0]:
+            return []
         o = [list(x) for x in self.cfg['ops']]
         if not self.w.main._clock_scheduler.queue.empty():
             o.append(['step'])
         return o
 
     def apply(self, op):
+        if _POISON[0]:
+            return []
         w, ref = self.w, self.ref
         del w.log[:], w.problems[:], ref.log[:]
         dis = []
@@ -1017,6 +1057,8 @@ class CondSys:
             {n for f in ref.fvs.values() for n in f.cond.waiting}
 
     def key(self):
+        if _POISON[0]:
+            return ['poisoned']
         return [self.ref.snapshot(), self.w.implkey(), min(self.resumed, 1),
                 self.tainted]
 
@@ -1204,13 +1246,21 @@ def work_rt(job):
         pre, late = schedx.cost_of(points, choices)
         case = {'name': name, 'how': how, 'prog': prog,
                 'choices': list(choices)}
-        for kind, exp, obs, detail in check_rt(prog, how, res):
+        found = check_rt(prog, how, res)
+        bad[0] += bool(found)
+        for kind, exp, obs, detail in found:
             acc.violation(kind, case, exp, obs, detail,
                           size=(pre + late) * 100000 + len(choices) * 100 +
                           len(core.canon(prog)) // 10)
         order = [e[:3] for e in res['trace'] if e[0] in ('res', 'mark')]
         acc.case(case, (pre + late) > 0 or 'same-instant' in name
                  or name.endswith('-now'), order, steps=res['steps'])
+        if bad[0] >= 25:
+            # enough violating schedules of this program: a library that
+            # leaks state from one execution into the next can make the
+            # schedule tree grow without bound (reported as capped)
+            return 'stop'
+    bad = [0]
     r = schedx.explore(run, job['max_pre'], job['max_late'], on_result,
                        max_exec=job.get('max_exec'))
     acc.count('rt_executions', r['executions'])
